@@ -400,6 +400,13 @@ func r073(c *Ctx) {
 								st = 2
 							}
 						}
+						// the cursor a token parser of the package returns: the zero uuid when that
+						// parser returns uuid.Nil on all its paths for an empty token
+						if ex, ok := core.ValueOrigin(x.Val).(*ssa.Extract); ok {
+							if call, ok := ex.Tuple.(*ssa.Call); ok && nilUUIDWhenEmpty(call.Common().StaticCallee(), ex.Index) {
+								st = 2
+							}
+						}
 					case *ssa.Return:
 						if st&4 != 0 {
 							badPos = x.Pos()
@@ -551,6 +558,11 @@ func r074(c *Ctx) {
 				}
 				if call, ok := rv.(*ssa.Call); ok && call.Common().StaticCallee() != nil && inSet[call.Common().StaticCallee()] {
 					continue // checked in that function itself
+				}
+				if ex, ok := core.ValueOrigin(rv).(*ssa.Extract); ok {
+					if call, ok := ex.Tuple.(*ssa.Call); ok && call.Common().StaticCallee() != nil && inSet[call.Common().StaticCallee()] {
+						continue // the error of a parser judged itself, handed on
+					}
 				}
 				n++
 				code, why := herodotCode(p, rv, 0)
@@ -1659,4 +1671,66 @@ func hasMore(c *Ctx) hasMoreResult {
 	}
 	res.desc = fmt.Sprintf("has-more len(rows) > PerPage %s, the look-ahead row is dropped, token from %s of the last kept row", where, res.tokenField)
 	return res
+}
+
+// nilUUIDWhenEmpty: on the paths of h on which its string parameter (the token) is empty, result idx
+// is uuid.Nil at every return.
+func nilUUIDWhenEmpty(h *ssa.Function, idx int) bool {
+	if h == nil || h.Blocks == nil {
+		return false
+	}
+	isTok := func(v ssa.Value) bool {
+		par, ok := core.ValueOrigin(v).(*ssa.Parameter)
+		return ok && isStringT2(par.Type())
+	}
+	nonEmpty := map[[2]*ssa.BasicBlock]bool{}
+	for _, b := range h.Blocks {
+		if len(b.Instrs) == 0 {
+			continue
+		}
+		ifi, ok := b.Instrs[len(b.Instrs)-1].(*ssa.If)
+		if !ok {
+			continue
+		}
+		for k := 0; k < 2; k++ {
+			op, x, y, ok := core.Cond{V: ifi.Cond, True: k == 0, At: b}.Holds()
+			if ok && op == token.NEQ {
+				if kc, isK := y.(*ssa.Const); isK && kc.Value != nil && kc.Value.ExactString() == `""` && isTok(x) {
+					nonEmpty[[2]*ssa.BasicBlock{b, b.Succs[k]}] = true
+				}
+			}
+		}
+	}
+	seen := map[*ssa.BasicBlock]bool{}
+	okAll, n := true, 0
+	var walk func(b *ssa.BasicBlock)
+	walk = func(b *ssa.BasicBlock) {
+		if seen[b] {
+			return
+		}
+		seen[b] = true
+		if len(b.Instrs) > 0 {
+			if ret, ok := b.Instrs[len(b.Instrs)-1].(*ssa.Return); ok {
+				n++
+				isNil := false
+				if idx < len(ret.Results) {
+					if u, ok := ret.Results[idx].(*ssa.UnOp); ok {
+						if g, ok := u.X.(*ssa.Global); ok && g.Name() == "Nil" {
+							isNil = true
+						}
+					}
+				}
+				if !isNil {
+					okAll = false
+				}
+			}
+		}
+		for _, sc := range b.Succs {
+			if !nonEmpty[[2]*ssa.BasicBlock{b, sc}] {
+				walk(sc)
+			}
+		}
+	}
+	walk(h.Blocks[0])
+	return okAll && n > 0
 }
